@@ -123,7 +123,7 @@ def run_crate_finder(unit_name, scratch, only=None, spec=None):
             os.makedirs(os.path.join(dst, "tests"), exist_ok=True)
             tname = "verif_%s_%s" % (unit_name, os.path.basename(test)[:-3])
             shutil.copy(tpath, os.path.join(dst, "tests", tname + ".rs"))
-            cmd = ["cargo", "test", "--offline", "--test", tname, "--", "--nocapture", "--test-threads", "1"]
+            cmd = ["cargo", "test", "--offline", "--test", tname] + ([only] if only else []) + ["--", "--nocapture", "--test-threads", "1"]
         else:
             # the finder becomes a child module of the host file (it sees the private items); the module file sits next to the host
             shutil.copy(tpath, os.path.join(dst, os.path.dirname(host), "verif_finder_mod.rs"))
